@@ -29,6 +29,7 @@ def dispatch (line : String) : String :=
     match op with
     | "codec" => C03.codec args
     | "wire" => C03.wireOp args
+    | "wire2" => C03.wire2Op args
     | "estep" => C03.estepOp args
     | "parse" => C15.parseOp args
     | "rr" => C15.rrOp args
